@@ -5,7 +5,8 @@ R19.2 mocks are in-memory, return the supplied value, and have no RUN / save / f
       created through _create_task with the helper's config;  R19.3 the parameters reach the config unchanged;
 R19.4 create_test_task returns the task from a TestChain built from exactly its arguments;
 R19.5 pattern inputs select tasks by the name they are registered under (so mocked tasks are found);
-R19.6 run() arguments come only from input tasks and declared parameters (shared with C01 R01.5).
+R19.6 run() arguments come only from input tasks and declared parameters (shared with C01 R01.5);
+R19.7 the helper's store is private to it, or its storage key names the parameters and the mocked values.
 """
 from __future__ import annotations
 
@@ -17,7 +18,7 @@ from ..report import Report, key_of
 from ..types import Ctx
 from .c01 import check_run_argument_binding
 from .c08 import check_expand_tasks
-from ..terms import assume, has_opaque, pretty
+from ..terms import assume, contains, has_opaque, is_opaque, pretty
 from .common import TRUSTED_BASE, bound_args, effects_of, inl, subst_single_assign, where
 
 STAGES = ['_process_config', '_create_tasks', '_process_dependencies', '_build_graph', '_init_objects']
@@ -171,6 +172,98 @@ def run(A, R: Report, thorough: bool):
 
     R.check(bool(sup) and all(len(c.args) == 1 and is_helper_config(c.args[0]) and not c.keywords for c in sup), 'R19.3', 'TestChain.__init__: super().__init__', key_of('super-init'), 'base chain built from the helper config (parameter mode default)',
             'the base Chain is not constructed from the helper\'s config with default settings', where=where(tinit))
+
+    # ---- R19.7
+    R.rule('R19.7', 'a helper never serves a result stored for other parameters / mock values: its store is private, or its storage key names both', floor=1)
+    recreated = any(s_ == '_recreate_tasks_with_parameter_config' for s_, _ in stage_sequence(A, fprep))
+    for c in cfgs:
+        ba = bound_args(c, cinit) or {}
+        bd, nm = ba.get('base_dir'), ba.get('name')
+        got = A.sym.terms_at(tinit, ('inst', tc), [x for x in (bd, nm) if x is not None])
+        bts = got.get(id(bd), []) if bd is not None else []
+        nts = got.get(id(nm), []) if nm is not None else []
+        if not bts or any(has_opaque(t) for t in bts + nts):
+            R.undecided('R19.7', 'TestChain.__init__: store of the helper', 'base_dir / name of the helper config could not be evaluated symbolically', where=where(tinit, c))
+            continue
+        caller_store = any(contains(t, lambda x: x == ('p', 'base_dir')) and
+                           not is_opaque(assume(t, lambda c_: False if c_ == ('cmp', 'Is', ('p', 'base_dir'), ('lit', None)) else (True if c_ in (('p', 'base_dir'), ('cmp', 'IsNot', ('p', 'base_dir'), ('lit', None))) else None)))
+                           for t in bts)
+        names_inputs = bool(nts) and all(contains(t, lambda x: x == ('p', 'parameters')) and contains(t, lambda x: x == ('p', 'mock_tasks')) for t in nts)
+        shown = pretty(nts[0])[:80] if nts else None
+        if recreated and not names_inputs:
+            R.undecided('R19.7', 'TestChain.__init__: store of the helper', 'the helper recreates its tasks with parameter configs: whether the keys also name the mocked values is not decided here', where=where(tinit, c))
+            continue
+        R.check(not caller_store or names_inputs, 'R19.7', 'TestChain.__init__: store of the helper', key_of('helper-store', caller_store, names_inputs),
+                'the store is private to the helper, or the storage name depends on the parameters and the mocked values',
+                f'helper tasks are stored in the caller\'s `base_dir` under the name `{shown}`, which depends on neither the parameters nor the mocked values (and TestChain._prepare skips the parameter-hash pass): '
+                'a second helper on the same base_dir loads the result computed for other parameters / mocks, where a real chain recomputes', where=where(tinit, c))
+
+    # ---- R19.8 / R19.9 the contract a mock can serve: other code asks a task object for `.value`
+    taskc = A.cls('Task')
+    R.rule('R19.8', 'chain code never reads `.data` of a task object: results are requested through `.value`, the member MockTask overrides', floor=1)
+    n8 = 0
+    bad8 = []
+    for ci_ in (chain, A.cls('MultiChain'), tc):
+        for m_ in ci_.methods.values():
+            for g_ in [m_] + list(m_.nested.values()):
+                ctxs_ = A.ctxs(g_) or [Ctx(g_, ('inst', ci_))]
+                for n_ in A.typer.own_nodes(g_):
+                    if isinstance(n_, ast.Attribute) and n_.attr in ('data', '_data') and isinstance(n_.ctx, ast.Load) and src(n_.value) != 'self':
+                        tys = set()
+                        for cx in ctxs_[:4]:
+                            tys |= set(A.typer.expr(n_.value, cx))
+                        if any(t_[0] == 'inst' and hasattr(t_[1], 'is_subclass_of') and t_[1].is_subclass_of(taskc) for t_ in tys):
+                            bad8.append((g_, n_))
+            n8 += 1
+    R.check(not bad8, 'R19.8', 'Chain / MultiChain / TestChain: reads of task results', key_of('task-data-read', sorted({f'{g_.short}:{src(n_)}' for g_, n_ in bad8})), f'{n8} methods: task results are only requested through .value',
+            f'`{src(bad8[0][1]) if bad8 else ""}` in {bad8[0][0].short if bad8 else ""} goes to the load / run pipeline of the task object directly: a mocked task (which only overrides `value`, has no config and no run()) is run for real and fails, where the real chain just works',
+            where=where(bad8[0][0], bad8[0][1]) if bad8 else where(chain.methods['force']))
+    R.rule('R19.9', 'while a task is computed, its input task objects are only asked for `.value` (a mock has no config, storage name or data object)', floor=1)
+    mock_members = set(mock.methods)
+    run_path = [taskc.methods[k] for k in ('data', '_get_run_arguments', '_init_run_info', '_finish_run_info', '_process_run_result', 'value', 'save_to_run_info') if k in taskc.methods]
+    bad9 = []
+    n9 = 0
+    for m_ in run_path:
+        owned = set()
+        nodes_ = list(A.typer.own_nodes(m_))
+
+        def from_inputs(e):
+            if isinstance(e, ast.Name):
+                return e.id in owned
+            if isinstance(e, ast.Attribute):
+                return (src(e) in ('self.input_tasks', 'self._input_tasks')) or from_inputs(e.value)
+            if isinstance(e, ast.Subscript):
+                return from_inputs(e.value)
+            if isinstance(e, ast.Call):
+                return (isinstance(e.func, ast.Attribute) and e.func.attr in ('values', 'items', 'get') and from_inputs(e.func.value)) or any(from_inputs(a_) for a_ in e.args)
+            if isinstance(e, (ast.BoolOp,)):
+                return any(from_inputs(v_) for v_ in e.values)
+            if isinstance(e, ast.IfExp):
+                return from_inputs(e.body) or from_inputs(e.orelse)
+            return False
+
+        ch = True
+        while ch:
+            ch = False
+            for n_ in nodes_:
+                tg = val = None
+                if isinstance(n_, ast.Assign) and len(n_.targets) == 1:
+                    tg, val = n_.targets[0], n_.value
+                elif isinstance(n_, (ast.For, ast.comprehension)):
+                    tg, val = n_.target, n_.iter
+                if tg is not None and from_inputs(val):
+                    for x in ast.walk(tg):
+                        if isinstance(x, ast.Name) and x.id not in owned:
+                            owned.add(x.id)
+                            ch = True
+        for n_ in nodes_:
+            if isinstance(n_, ast.Attribute) and isinstance(n_.value, (ast.Name, ast.Subscript)) and from_inputs(n_.value) and not src(n_.value).startswith('self.'):
+                n9 += 1
+                if n_.attr not in mock_members and n_.attr not in ('value',) and n_.attr in taskc.methods:
+                    bad9.append((m_, n_))
+    R.check(not bad9, 'R19.9', 'Task.data and its helpers: members read from input task objects', key_of('input-member', sorted({src(n_) for _, n_ in bad9})), f'{n9} access(es), all `.value`',
+            f'`{src(bad9[0][1]) if bad9 else ""}` is read from an input task object while the task is computed: for a mocked input (no config, no data object) this raises and replaces the error / value a real chain produces',
+            where=where(bad9[0][0], bad9[0][1]) if bad9 else where(taskc.methods['data']))
 
     # ---- R19.4
     R.rule('R19.4', 'create_test_task builds TestChain([task], parameters, mocks, base_dir) and returns chain[task.fullname(config)]', floor=1)
